@@ -235,6 +235,8 @@ def run_case(runtime, kind, shape, inject, max_connections=1, yield_in_ops=True)
         if runtime == "asyncio":
             anyio.run(main, backend="asyncio")
         else:
+            import trio._core._run as trio_run
+            trio_run._r.seed(0)          # replayable batch order
             anyio.run(main, backend="trio")
     except BaseException as e:  # noqa
         res["harness_exc"] = repr(e)[:200]
